@@ -22,7 +22,7 @@ CHECKS['C11'] = {
     ],
     'units': [
         unit('random', 'keepclient_c11', '^TestVerifC11PutReplicas$',
-             {'shards': 16, 'checks': 2000}, {'shards': 16, 'checks': 100000, 'timeout': 1500}),
+             {'shards': 16, 'checks': 2000}, {'shards': 16, 'checks': 300000, 'timeout': 3000}),
         unit('exhaustive', 'keepclient_c11', '^TestVerifC11Exhaustive$',
              {'shards': 8, 'env': {'VERIF_NSHARDS': 8}}, {'shards': 16, 'env': {'VERIF_NSHARDS': 16}, 'timeout': 1500},
              rapid=False, shard_arg=True),
